@@ -79,7 +79,7 @@ def _cast_type(name):
 
 
 @st.composite
-def _enum(draw, idx):
+def _enum(draw, idx, two_prefixes=False):
     shared = draw(st.lists(st.sampled_from(WORDS), min_size=0, max_size=3))
     n = draw(st.one_of(st.integers(1, 4), st.integers(1, 12)))
     tails = draw(st.lists(st.lists(st.sampled_from(WORDS), min_size=1, max_size=3).map(tuple),
@@ -91,6 +91,9 @@ def _enum(draw, idx):
     tails = kept
     prefix_ns = draw(st.sampled_from(['FOO', 'FOO', 'FOO', 'FOO_E%d' % idx]))
     names = ['_'.join([prefix_ns] + shared + list(t)) for t in tails]
+    if two_prefixes and draw(st.booleans()):
+        # with two namespace symbol prefixes the members need not share any word at all
+        names = ['_'.join([draw(st.sampled_from(['FOO', 'BAR']))] + shared + list(t)) for t in tails]
     members = []
     for nm in names:
         vk = draw(st.sampled_from(['implicit', 'implicit', 'small', 'neg', 'big31', 'big32', 'shift']))
@@ -183,12 +186,13 @@ def _case(draw):
         a0 = aliases[0]
         aliases.append({'name': 'FooAliasOfAlias', 'target': a0['target'], 'depth': 2})
         decls.append({'d': 'typedef', 'name': 'FooAliasOfAlias', 'type': ty(a0['name'], kind='typedef')})
+    two = draw(st.sampled_from([False, False, True]))
     for i in range(draw(st.integers(1, 3))):
-        decls.append(draw(_enum(i)))
+        decls.append(draw(_enum(i, two)))
     for i in range(draw(st.integers(0, 8))):
         decls.append(draw(_const(i, aliases)))
     decls = list(draw(st.permutations(decls)))
-    return {'decls': decls}
+    return {'decls': decls, 'two_prefixes': two}
 
 
 def _external_typedefs():
@@ -228,7 +232,7 @@ def expected_member_names(members):
         if k > 0:
             out[m['name']] = '_'.join(s[k:]).lower()
         else:
-            assert m['name'].startswith('FOO_')
+            assert m['name'].startswith(('FOO_', 'BAR_'))
             out[m['name']] = m['name'][4:].lower()
     return out
 
@@ -254,7 +258,8 @@ def check_case(case, ctx):
                 if len(pub) < 2 or common_word_prefix([m['name'] for m in pub]) != common_word_prefix([m['name'] for m in d['members']]):
                     for m in d['members']:
                         m.pop('private', None)
-    full = {'ns': NS, 'includes': ['GLib-2.0', 'FooBar-1.0'], 'decls': decls, 'comments': [], 'dump': None}
+    ns = dict(NS, sym_prefixes=['foo', 'bar']) if case.get('two_prefixes') else NS
+    full = {'ns': ns, 'includes': ['GLib-2.0', 'FooBar-1.0'], 'decls': decls, 'comments': [], 'dump': None}
     try:
         res = pipeline.run(full, ctx.mkscratch())
     except Exception as e:
@@ -289,6 +294,8 @@ def check_case(case, ctx):
                     raise Violation('enum-member-value', '%s: %s expected value %s got %s' % (d['name'], e[0], e[2], g[2]))
             if len(d['members']) >= 2 and common_word_prefix([m['name'] for m in d['members']]) >= 2:
                 deep_prefix = True
+            if len(d['members']) >= 2 and common_word_prefix([m['name'] for m in d['members']]) == 0:
+                ctx.label('enum-no-shared-word')
         elif d['d'] == 'const':
             els = [e for e in ns.findall(GI + 'constant') if e.get(C + 'type') == d['name']]
             hidden = d['name'].startswith('_') or d.get('file', '').endswith('.c')
